@@ -29,6 +29,9 @@ static int a_damage;       /* set when a guard was found overwritten */
 static int a_nextid;
 
 #define a_log ev_add
+/* optional translation hook: called instead of the default event logging with
+ * kind in {"alloc","free","allocfail","realloc"} and the user pointers involved */
+static void (*a_hook)(const char *kind, void *oldp, void *newp, size_t n);
 static a_blk_t *a_find(const void *p)
 {
     int i;
@@ -112,9 +115,9 @@ void *__wrap_malloc(size_t n)
     a_blk_t *b;
     if (!a_track) return __real_malloc(n);
     a_track = 0;
-    if (a_should_fail(n)) { a_log("[\"allocfail\",\"%zx\"]", n); a_track = 1; return NULL; }
+    if (a_should_fail(n)) { if (a_hook) a_hook("allocfail", NULL, NULL, n); else a_log("[\"allocfail\",\"%zx\"]", n); a_track = 1; return NULL; }
     b = a_new(n);
-    if (b) a_log("[\"alloc\",%d,%zu]", b->id, n);
+    if (b) { if (a_hook) a_hook("alloc", NULL, b->raw + A_GUARD, n); else a_log("[\"alloc\",%d,%zu]", b->id, n); }
     a_track = 1;
     return b ? b->raw + A_GUARD : NULL;
 }
@@ -142,7 +145,7 @@ void __wrap_free(void *p)
         if (!a_guard_ok(b)) a_damage = 1;
         b->live = 0;
         memset(b->raw + A_GUARD, 0xDD, b->n);
-        a_log("[\"free\",%d]", b->id);
+        if (a_hook) a_hook("free", p, NULL, b->n); else a_log("[\"free\",%d]", b->id);
         a_track = t;
     }
 }
